@@ -280,6 +280,36 @@ def subNotes (c : Col) (p : Nat) : List SubTok → Option (List RawNote)
     | some d, some rest => some (noteOf c p t d :: rest)
     | _, _ => none
 
+/-- the notes of one token at the column's cursor, and what the spine advances by
+    (a token with a grace note does not advance) -/
+def tokenNotes (c : Col) (p : Nat) (toks : List SubTok) : Option (List RawNote × Rat) :=
+  match subNotes c p toks, tokenAdvance toks with
+  | some ns, some adv => some (ns, if toks.any (·.grace) then 0 else adv)
+  | _, _ => none
+
+/-- what a token advances its spine by (independent of where the spine stands) -/
+def tokAdv (toks : List SubTok) : Option Rat :=
+  (tokenAdvance toks).map fun a => if toks.any (·.grace) then 0 else a
+
+/-- total advance of a sequence of tokens -/
+def advTotal : List (List SubTok) → Option Rat
+  | [] => some 0
+  | t :: ts =>
+    match tokAdv t, advTotal ts with
+    | some a, some s => some (a + s)
+    | _, _ => none
+
+/-- a spine read on its own: every token starts where the previous one ended -/
+def spineRun (c : Col) (p : Nat) : List (List SubTok) → Option (List (List RawNote) × Col)
+  | [] => some ([], c)
+  | t :: ts =>
+    match tokenNotes c p t with
+    | none => none
+    | some (ns, adv) =>
+      match spineRun { c with cursor := c.cursor + adv } p ts with
+      | none => none
+      | some (r, c') => some (ns :: r, c')
+
 /-- tokens of one part on one row are simultaneous: a token starts where the leftmost token of its part on
     that row starts (in a rhythmically consistent document this is the spine's own cursor) -/
 def groupKey (same : Bool) (c : Col) : Nat := if same then 0 else c.main + 1
@@ -298,12 +328,10 @@ def dataRow : St → List (Col × Nat) → List (List Char) → List Col → Lis
         let anchors := match lookup g anchors with
           | some _ => anchors
           | none => (g, c.cursor) :: anchors
-        let grace := toks.any (·.grace)
-        match subNotes c p toks, tokenAdvance toks with
-        | some ns, some adv =>
-          let adv := if grace then 0 else adv
+        match tokenNotes c p toks with
+        | some (ns, adv) =>
           dataRow { st with notes := ns.reverse ++ st.notes } cs cells ({ c with cursor := c.cursor + adv } :: acc) anchors
-        | _, _ => none
+        | none => none
   | _, _, _, _, _ => none
 
 def step (st : St) (row : List (List Char)) : Option St :=
